@@ -79,15 +79,22 @@ def one(d, name):
     finally:
         shutil.rmtree(cp, ignore_errors=True)
     out = os.path.join(V, "seeded", "harmless")
-    shutil.copy(diff, os.path.join(out, name + ".diff"))
+    if os.path.realpath(diff) != os.path.realpath(os.path.join(out, name + ".diff")):
+        shutil.copy(diff, os.path.join(out, name + ".diff"))
     if os.path.exists(os.path.join(d, name + ".txt")):
         res["author_note"] = open(os.path.join(d, name + ".txt")).read()
+    elif os.path.exists(os.path.join(out, name + ".json")):
+        # re-run from the stored copy: keep the author's note of the first evaluation
+        try:
+            res["author_note"] = json.load(open(os.path.join(out, name + ".json"))).get("author_note", "")
+        except Exception:
+            pass
     json.dump(res, open(os.path.join(out, name + ".json"), "w"), indent=1)
     return res
 
 
 def main():
-    d = sys.argv[1].rstrip("/")
+    d = os.path.abspath(sys.argv[1].rstrip("/"))
     names = sys.argv[2:] or sorted(f[:-5] for f in os.listdir(d) if f.endswith(".diff"))
     with ThreadPoolExecutor(max_workers=int(os.environ.get("HARM_PAR", "2"))) as ex:
         for res in ex.map(lambda n: one(d, n), names):
